@@ -2,7 +2,7 @@ import Enc.Lemmas.ProtoRoundTripScalar
 /-!
 # C03, field level: one record written by the encoder, read by the struct loop of the decoder
 
-  * `Seg cfs fl seg vs vs'`   `seg` is a run of complete records that `decodeStruct` (codec fields `cfs`, flags `fl`)
+  * `Seg cfs fl seg vs vs'`   `seg` is a run of complete records that `decodeStructU` (codec fields `cfs`, flags `fl`)
                               consumes entirely, turning the field values `vs` into `vs'`, whatever follows
   * `Seg.nil / Seg.append / Seg.run`
   * `carve_payload / carve_emb`   the `switch wireType` finds exactly the bytes the encoder wrote
@@ -17,11 +17,11 @@ open Enc Enc.Model.Proto Enc.Lemmas.ProtoWire Enc.Lemmas.ProtoDecode
 
 /-- `seg` is a run of complete field records: in front of any `rest`, at any offset of any buffer that is long
 enough, the struct loop works through `seg`, arrives at `rest` with the values `vs'`, and from there on behaves as it
-would have anyway (fuel: some amount suffices; `unmarshal` supplies enough, see `ProtoDecode.decode_fuel_eq`). -/
+would have anyway (fuel: some amount suffices; `unmarshalU` supplies enough, see `ProtoDecode.decode_fuel_eq`). -/
 def Seg (cfs : CFields) (fl : Flags) (seg : Bytes) (vs vs' : Vals) : Prop :=
   ∀ (rest : Bytes) (lenB off : Nat) (R : Vals × Nat), off + seg.length + rest.length ≤ lenB →
-    (∃ f, decodeStruct f cfs rest lenB vs' fl (off + seg.length) = .ok R) →
-    ∃ f, decodeStruct f cfs (seg ++ rest) lenB vs fl off = .ok R
+    (∃ f, decodeStructU f cfs rest lenB vs' fl (off + seg.length) = .ok R) →
+    ∃ f, decodeStructU f cfs (seg ++ rest) lenB vs fl off = .ok R
 
 theorem Seg.nil (cfs : CFields) (fl : Flags) (vs : Vals) : Seg cfs fl [] vs vs := by
   intro rest lenB off R _ h
@@ -38,8 +38,8 @@ theorem Seg.append {cfs : CFields} {fl : Flags} {s1 s2 : Bytes} {vs vs1 vs2 : Va
 
 /-- a segment that makes up a whole buffer: the loop returns the final values and the buffer length -/
 theorem Seg.run {cfs : CFields} {fl : Flags} {body : Bytes} {vs vs' : Vals} (h : Seg cfs fl body vs vs') :
-    ∃ f, decodeStruct f cfs body body.length vs fl 0 = .ok (vs', body.length) := by
-  have := h [] body.length 0 (vs', body.length) (by simp) ⟨1, by simp [decodeStruct]⟩
+    ∃ f, decodeStructU f cfs body body.length vs fl 0 = .ok (vs', body.length) := by
+  have := h [] body.length 0 (vs', body.length) (by simp) ⟨1, by simp [decodeStructU]⟩
   simpa using this
 
 /-! ## carving the data of a field -/
@@ -90,17 +90,17 @@ with whatever follows. -/
 theorem seg_field (cfs : CFields) (fl : Flags) (num i : Nat) (emb zz : Bool) (c : Codec) (d : Bytes) (vs : Vals)
     (v' : Val) (hnum : num < 2 ^ 61) (hlk : lookupField cfs num = some (i, emb, zz, c))
     (hshape : if emb = true then c.wire = .varlen ∧ d.length < 2 ^ 64 else IsPayload c.wire.num d)
-    (hdec : ∃ f, decode f c d (Vals.get vs i) { fl with zigzag := fl.zigzag || zz } = .ok (v', d.length)) :
+    (hdec : ∃ f, decodeU f c d (Vals.get vs i) { fl with zigzag := fl.zigzag || zz } = .ok (v', d.length)) :
     Seg cfs fl (encodeTag num c.wire ++ (if emb = true then encodeVarint (BitVec.ofNat 64 d.length) else []) ++ d)
       vs (Vals.set vs i v') := by
   intro rest lenB off R hle ⟨f2, h2⟩
   obtain ⟨f1, h1⟩ := hdec
   refine ⟨max f1 f2 + 1, ?_⟩
   have hs := tagWord_spec num c.wire hnum
-  have hd1 : decode (max f1 f2) c d (Vals.get vs i) { fl with zigzag := fl.zigzag || zz } = .ok (v', d.length) := by
+  have hd1 : decodeU (max f1 f2) c d (Vals.get vs i) { fl with zigzag := fl.zigzag || zz } = .ok (v', d.length) := by
     rw [decode_mono f1 _ c d _ _ (Nat.le_max_left _ _) (by rw [h1]; simp), h1]
   have hd2 : ∀ o, o = off + (encodeTag num c.wire ++ (if emb = true then encodeVarint (BitVec.ofNat 64 d.length) else [])
-      ++ d).length → decodeStruct (max f1 f2) cfs rest lenB (Vals.set vs i v') fl o = .ok R := by
+      ++ d).length → decodeStructU (max f1 f2) cfs rest lenB (Vals.set vs i v') fl o = .ok R := by
     intro o ho
     rw [ho, decodeStruct_mono f2 _ cfs rest lenB _ fl _ (Nat.le_max_right _ _) (by rw [h2]; simp), h2]
   rw [decodeStruct_succ]
